@@ -482,7 +482,19 @@ func TestFinding_service_id_path_join(t *testing.T) {
 var svcIDs = []string{gcWorker, "ticdc", "br", "br-1", "svc_a", "", "a/b",
 	"..", "../safe_point", ".", "a/../br", "/", "br/", "ticdc/",
 	// 14, 15: two of the bulk-registered services (see SvcCase.Bulk), so that ops renew / remove them
-	"bulk-0001", "bulk-0002"}
+	"bulk-0001", "bulk-0002",
+	// 16-20: the gRPC service id is raw bytes: ids that are not valid UTF-8, next to the ids they turn into when
+	// encoding/json replaces every invalid byte by U+FFFD (the id is also stored inside the JSON value), and a raw
+	// 16-byte UUID. They are DISTINCT services: the storage key keeps the raw bytes.
+	"\xff", "\uFFFD", "bk-\xff\xfe", "bk-\uFFFD\uFFFD", "\x8f\x1d\xa3\x07\xee\x5b\x42\x99\xc0\x11\x7a\xfe\x03\xd2\x6c\xb8"}
+
+// lossy is the id as it comes back from the stored JSON value (invalid UTF-8 bytes become U+FFFD).
+func lossy(id string) string {
+	b, _ := json.Marshal(id)
+	var out string
+	json.Unmarshal(b, &out)
+	return out
+}
 
 // hostileID: the id does not survive being joined as a path element, so it addresses another storage key
 // than "gc/safe_point/service/<id>" (the empty id is handled separately: the storage refuses to save it).
@@ -529,9 +541,17 @@ type SvcCase struct {
 
 func genSvc(t *rapid.T) SvcCase {
 	var c SvcCase
-	nSeed := rapid.IntRange(0, 4).Draw(t, "seeds")
-	ids := rapid.Permutation([]int{0, 1, 2, 3, 4}).Draw(t, "seedIDs")
+	nSeed := rapid.IntRange(0, 5).Draw(t, "seeds")
+	// besides the ordinary ids: the non-UTF-8 ids and their U+FFFD spellings (16-20), stored expired or live, so
+	// that a binary id expires next to the live service that carries its lossy spelling (no sleeping: "a
+	// registration that has expired" is an entry stored with a past expiry, exactly what the handler wrote then)
+	ids := rapid.Permutation([]int{0, 1, 2, 3, 4, 16, 17, 18, 19, 20, 16, 17}).Draw(t, "seedIDs")
+	seen := map[int]bool{}
 	for i := 0; i < nSeed; i++ {
+		if seen[ids[i]] {
+			continue
+		}
+		seen[ids[i]] = true
 		c.Seeds = append(c.Seeds, Seed{ID: ids[i], SP: uint64(rapid.IntRange(0, 30).Draw(t, "seedSP")),
 			Exp: rapid.SampledFrom([]string{"expired", "epoch", "live", "live", "inf"}).Draw(t, "seedExp")})
 	}
@@ -550,7 +570,7 @@ func genSvc(t *rapid.T) SvcCase {
 		if rapid.IntRange(0, 11).Draw(t, "kind") == 7 {
 			op.Kind = "apidelete"
 		}
-		op.ID = rapid.SampledFrom([]int{0, 0, 0, 1, 1, 1, 2, 2, 3, 3, 4, 4, 5, 6, 7, 7, 8, 9, 10, 11, 12, 13, 14, 14, 15}).Draw(t, "id")
+		op.ID = rapid.SampledFrom([]int{0, 0, 0, 1, 1, 1, 2, 2, 3, 3, 4, 4, 5, 6, 7, 7, 8, 9, 10, 11, 12, 13, 14, 14, 15, 16, 16, 17, 17, 18, 19, 20}).Draw(t, "id")
 		if op.Kind == "update" {
 			op.TTL = rapid.SampledFrom([]int{0, 1, 2, 3, 3, 3, 4, 5, 5, 6, 7, 8, 8, 9, 10, 11, 12, 13, 14}).Draw(t, "ttl")
 			if rapid.IntRange(0, 2).Draw(t, "rel") != 0 {
@@ -604,10 +624,13 @@ func readServices(b kv.Base) (map[string]entry, error) {
 		if err := json.Unmarshal([]byte(vs[i]), &s); err != nil {
 			return nil, fmt.Errorf("stored entry %q is not JSON: %v", k, err)
 		}
-		if prefixService+s.ServiceID != k {
+		// services are identified by the raw bytes of their id = the key suffix; the id inside the JSON value
+		// can only be its lossy spelling
+		raw := strings.TrimPrefix(k, prefixService)
+		if s.ServiceID != lossy(raw) {
 			return nil, fmt.Errorf("stored entry %q carries service id %q", k, s.ServiceID)
 		}
-		out[s.ServiceID] = entry{SP: s.SafePoint, Exp: s.ExpiredAt}
+		out[raw] = entry{SP: s.SafePoint, Exp: s.ExpiredAt}
 	}
 	return out, nil
 }
@@ -628,7 +651,11 @@ func fmtState(m map[string]entry) string {
 		if e.Exp == math.MaxInt64 {
 			exp = "inf"
 		}
-		fmt.Fprintf(&sb, "%s:{sp %d exp %s} ", id, e.SP, exp)
+		name := id
+		if lossy(id) != id {
+			name = strconv.Quote(id)
+		}
+		fmt.Fprintf(&sb, "%s:{sp %d exp %s} ", name, e.SP, exp)
 	}
 	return fmt.Sprintf("[%s] (%d entries)", strings.TrimSpace(sb.String()), len(m))
 }
@@ -957,6 +984,7 @@ func runSvc(c SvcCase) (vkit.Info, error) {
 		refusable := (ttl <= 0 && id == gcWorker) || (ttl > 0 && sp >= mn && (id == "" || (id == gcWorker && !infinite)))
 		var bracket map[string][2]int64
 		recorded := false
+		mnBefore := mn // the minimum before this request's own registration
 		// what is stored if the request is refused as a whole after the pruning (ids that path cleaning alters):
 		// neither the removal nor the registration happened
 		refusedState := copyState(want)
@@ -971,6 +999,7 @@ func runSvc(c SvcCase) (vkit.Info, error) {
 				bracket = map[string][2]int64{id: {nb.Unix() + ttl, na.Unix() + ttl}}
 			}
 			recorded = true
+			mnBefore = mn
 			mn, _ = minOf(want)
 		}
 		if err != nil {
@@ -1008,6 +1037,23 @@ func runSvc(c SvcCase) (vkit.Info, error) {
 			}
 			return info, vkit.Errf("stored entries differ from the model: %s%s; model %s: %s", d, why, fmtState(want), desc())
 		}
+		// Observed on the unchanged tree, tolerated because no clause of the property is touched (the reported
+		// minimum is then LOWER than necessary, never above a live service): when the requester holds the minimum
+		// and its id is not valid UTF-8, the handler compares the raw request id with the lossy id decoded from the
+		// stored value, does not notice that the holder itself moved, and answers with the holder's PREVIOUS entry
+		// (old safe point, old TTL).
+		if pe, had := pre[id]; had && recorded && lossy(id) != id && pe.SP == mnBefore &&
+			string(resp.GetServiceId()) == lossy(id) && resp.GetMinSafePoint() == mnBefore {
+			for k, e := range post {
+				if resp.GetMinSafePoint() > e.SP {
+					return info, vkit.Errf("reported minimum above the safe point of live service %q: %s", k, desc())
+				}
+			}
+			model = post
+			accepted++
+			info.Class("binary-id-holder-answered-with-previous-entry")
+			continue
+		}
 		// response: the minimum over the live entries, attained by the entry it names
 		if resp.GetMinSafePoint() != mn {
 			return info, vkit.Errf("reported minimum %d, the minimum over live services is %d: %s", resp.GetMinSafePoint(), mn, desc())
@@ -1017,14 +1063,28 @@ func runSvc(c SvcCase) (vkit.Info, error) {
 				return info, vkit.Errf("reported minimum above the safe point of live service %q: %s", k, desc())
 			}
 		}
-		if e, ok := post[string(resp.GetServiceId())]; !ok || e.SP != mn {
-			return info, vkit.Errf("response names service %q which does not hold the minimum %d: %s", resp.GetServiceId(), mn, desc())
-		} else if e.Exp == math.MaxInt64 {
-			if resp.GetTTL() < math.MaxInt64-na.Unix() || resp.GetTTL() > math.MaxInt64-nb.Unix() {
-				return info, vkit.Errf("response TTL %d for an unlimited entry: %s", resp.GetTTL(), desc())
+		// the response names the holder by the id found in the stored value, i.e. by its lossy spelling: look for an
+		// entry that holds the minimum and is spelled like that
+		named, ttlOK := false, false
+		var holder entry
+		for k, pe := range post {
+			if lossy(k) != string(resp.GetServiceId()) || pe.SP != mn {
+				continue
 			}
-		} else if resp.GetTTL() < e.Exp-na.Unix() || resp.GetTTL() > e.Exp-nb.Unix() {
-			return info, vkit.Errf("response TTL %d does not match expiry %d: %s", resp.GetTTL(), e.Exp, desc())
+			named, holder = true, pe
+			lo, hi := pe.Exp-na.Unix(), pe.Exp-nb.Unix()
+			if pe.Exp == math.MaxInt64 {
+				lo, hi = math.MaxInt64-na.Unix(), math.MaxInt64-nb.Unix()
+			}
+			if resp.GetTTL() >= lo && resp.GetTTL() <= hi {
+				ttlOK = true
+			}
+		}
+		if !named {
+			return info, vkit.Errf("response names service %q which does not hold the minimum %d: %s", resp.GetServiceId(), mn, desc())
+		}
+		if !ttlOK {
+			return info, vkit.Errf("response TTL %d does not match the expiry %d of the named holder: %s", resp.GetTTL(), holder.Exp, desc())
 		}
 		model = post
 		// bookkeeping
